@@ -760,7 +760,7 @@ def run(ctx, res):
         import multiprocessing as mp
 
         with mp.Pool(16) as pool:
-            for r in pool.imap_unordered(_shard, [(ctx.seed, i, THOROUGH_SHARD) for i in range(22)]):
+            for r in pool.imap_unordered(_shard, [(ctx.seed, i, THOROUGH_SHARD) for i in range(16)]):
                 merge(res, r)
     else:
         run_scenarios(ctx, res, generate(ctx.rng, QUICK))
